@@ -182,10 +182,36 @@ func TrueImplies(fn *ssa.Function) ([]Fact, bool) {
 	}
 }
 
-func appendFact(out []Fact, v ssa.Value, t bool) []Fact {
+func appendFact(out []Fact, v ssa.Value, t bool) []Fact { return appendFactD(out, v, t, 0) }
+
+func appendFactD(out []Fact, v ssa.Value, t bool, depth int) []Fact {
 	out = append(out, Fact{v, t})
 	if u, ok := v.(*ssa.UnOp); ok && u.Op == token.NOT {
-		out = appendFact(out, u.X, !t)
+		out = appendFactD(out, u.X, !t, depth)
+	}
+	// the value of a short-circuit expression (a && b && c, a || b): a phi of boolean constants and one computed
+	// edge. If only one edge can have produced t, control came through it: that edge's value is t, and everything
+	// known at the end of its predecessor holds as well.
+	if ph, ok := v.(*ssa.Phi); ok && depth < 4 {
+		live := -1
+		n := 0
+		for i, e := range ph.Edges {
+			if k, ok := e.(*ssa.Const); ok && k.Value != nil && k.Value.Kind() == constant.Bool && constant.BoolVal(k.Value) != t {
+				continue
+			}
+			live = i
+			n++
+		}
+		if n == 1 {
+			if _, isConst := ph.Edges[live].(*ssa.Const); !isConst {
+				out = appendFactD(out, ph.Edges[live], t, depth+1)
+			}
+			p := ph.Block().Preds[live]
+			out = append(out, FactsAt(p)...)
+			if iff, ok := p.Instrs[len(p.Instrs)-1].(*ssa.If); ok && p.Succs[0] != p.Succs[1] {
+				out = appendFactD(out, iff.Cond, p.Succs[0] == ph.Block(), depth+1)
+			}
+		}
 	}
 	// x == true / x != false / ...: a fact about x itself
 	if b, ok := v.(*ssa.BinOp); ok && (b.Op == token.EQL || b.Op == token.NEQ) {
@@ -197,7 +223,7 @@ func appendFact(out []Fact, v ssa.Value, t bool) []Fact {
 				if b.Op == token.NEQ {
 					val = kv != t
 				}
-				out = appendFact(out, pr[0], val)
+				out = appendFactD(out, pr[0], val, depth)
 			}
 		}
 	}
